@@ -60,7 +60,7 @@ def gen_cases(rng, n, prop):
             elif k == 1:
                 t = a + ' and ' + gen_cond(rng)           # lower-case connective
             elif k == 2:
-                t = a + ' ' + rng.choice(["17", "'lit'", 'zzz', 'true', 'null', '= 1', '!', ':p'])
+                t = a + ' ' + rng.choice(["17", "'lit'", 'zzz', 'true', 'null', '= 1', '!', ':p', "'oops", '"', "'", "' OR zzz == 3", '"tail', "'a' '", '\\', '#', ';', '}', '17 "'])
             elif k == 3:
                 b = gen_expr(rng)
                 x = rng.choice(['opt', 'zzz', 'name'])
